@@ -393,13 +393,20 @@ def execute(stim):
                             outcome = 'other:' + type(err).__name__
                         rec('extbad', outcome=outcome, how=op['how'])
                     elif k == 'hit':          # trigger the handler / eval fault of a block
+                        bconf = blocks[op['dest'] - 1]
+                        ctrlreq = (bconf['kind'] == 'trig' and op.get('value') == 7 and not bconf.get('fault')
+                                   and circuit.is_ready())
                         try:
                             if blocks[op['dest'] - 1]['kind'] == 'cb':
                                 edzed.ExtEvent(made[f'src{op["dest"]}']).send(op.get('value', 666))
                             else:
                                 edzed.ExtEvent(made[op['dest']]).send(op.get('value', 666))
                         except Exception:
-                            pass
+                            ctrlreq = False
+                        if ctrlreq:
+                            # a block has just sent a 'shutdown' / 'abort' control event: the stop is
+                            # requested by now (not some time later)
+                            rec('ctrlreq')
                     elif k == 'abort':
                         circuit.abort(Boom(op['code']))
                     elif k == 'shutdown':
